@@ -86,20 +86,30 @@ KcAddAlphabet == {[R |-> AllListed, M |-> {}, S |-> FALSE], [R |-> FirstKeys, M 
 RKcAdds == IF Mode # "kc" THEN {}
            ELSE {a \in KcAddAlphabet : ~(a.R \subseteq kcReg /\ a.M \subseteq kcSec /\ (a.S => kcScr))}
 
-RPasses == CASE Mode = "ord" -> OrdPasses [] Mode = "prod" -> ProdPasses [] Mode = "lim" -> LimPasses
+\* "front": what the signing front-ends REPORT.  One pass over all inputs with every subset of the
+\* listed keys (so the key of each input position is missing in turn), through create_signed_tx,
+\* sign_tx and Tx.sign, on transactions with more, as many and fewer inputs than outputs.
+FrontPasses == IF npass > 0 THEN {}
+               ELSE {P(mech, K, Ins, case.ht, TRUE, {}, {}, TRUE, "none") :
+                       mech \in {"create_signed", "wifs", "lookup"}, K \in SUBSET AllListed}
+
+RPasses == CASE Mode = "front" -> FrontPasses [] Mode = "ord" -> OrdPasses [] Mode = "prod" -> ProdPasses [] Mode = "lim" -> LimPasses
              [] Mode = "kc" -> KcPasses
 
 \* what the harness compares: per input the signers with their signature bytes, and validity
 Allowed(p) == {[s |-> [i \in Ins |-> SignedWith(p, i, ch[i])],
-                v |-> [i \in Ins |-> Cardinality(ch[i]) >= Need(i)]] : ch \in PassChoices(p, NIn)}
+                v |-> [i \in Ins |-> Cardinality(ch[i]) >= Need(i)],
+                bad |-> Reports(p, ch).bad, raises |-> Reports(p, ch).raises] : ch \in PassChoices(p, NIn)}
 RecOf(p) == [mech |-> p.mech, K |-> p.K, I |-> p.I, ht |-> p.ht, scr |-> p.scr, reg |-> p.reg,
              sec |-> p.sec, fresh |-> p.fresh, ic |-> p.ic, sup |-> Supplied(p), touch |-> Touchable(p),
              allowed |-> Allowed(p)]
 \* a keychain edit, printed in the shape of a pass: the only state it allows is the current one
 RecOfAdd(a) == [mech |-> "kc_add", K |-> {}, I |-> {}, ht |-> 1, scr |-> a.S, reg |-> a.R, sec |-> a.M,
                 fresh |-> FALSE, ic |-> "set", sup |-> {}, touch |-> {},
-                allowed |-> {[s |-> signed, v |-> valid]}]
+                allowed |-> {[s |-> signed, v |-> valid, bad |-> BadNow, raises |-> FALSE]}]
 
+\* number of outputs of the transaction (concretization; only the "front" cases vary it)
+NOut == IF "nout" \in DOMAIN case THEN case.nout ELSE 2
 RInit == /\ case \in Cases /\ ShapeOK(case.coin, case.shape) /\ InitWith(case.coin, case.shape)
          /\ acts = <<>> /\ outs = <<>> /\ alive = TRUE
 RPass(p) == /\ alive /\ SignPass(p)
@@ -108,13 +118,13 @@ RPass(p) == /\ alive /\ SignPass(p)
             /\ alive' = (~PruneNoop \/ signed' # signed)
             /\ UNCHANGED case
             /\ PrintT(ToJson([k |-> "beh", coin |-> coin, shape |-> shape, acts |-> acts', outs |-> outs',
-                              flags |-> PolicyFlags(coin), sigbyte |-> SigByte(coin, p.ht)]))
+                              nout |-> NOut, mode |-> Mode, flags |-> PolicyFlags(coin), sigbyte |-> SigByte(coin, p.ht)]))
 RKcAdd(a) == /\ alive /\ KcAdd(a.R, a.M, a.S)
              /\ acts' = Append(acts, RecOfAdd(a))
              /\ outs' = Append(outs, [signed |-> signed, valid |-> valid])
              /\ UNCHANGED <<case, alive>>
              /\ PrintT(ToJson([k |-> "beh", coin |-> coin, shape |-> shape, acts |-> acts', outs |-> outs',
-                               flags |-> PolicyFlags(coin), sigbyte |-> SigByte(coin, case.ht)]))
+                               nout |-> NOut, mode |-> Mode, flags |-> PolicyFlags(coin), sigbyte |-> SigByte(coin, case.ht)]))
 RNext == (\E p \in RPasses : RPass(p)) \/ (\E a \in RKcAdds : RKcAdd(a))
 RSpec == RInit /\ [][RNext]_rvars
 
@@ -160,6 +170,12 @@ KcCases(coins) ==
       ht |-> HTSeq[a + 1], mech |-> "keychain"] : c \in coins, a \in 1..4}
 KcCasesQ == KcCases({"BTC"}) \cup {x \in KcCases({"BCH"}) : x.shape[1].kind = "ms_p2sh"}
 KcCasesT == KcCases({"BTC", "BTG", "LTC"}) \cup KcCases({"BCH"})
+\* front-end cases: three single-key inputs (and a two-input shape with a multisig) x 1..4 outputs
+FrontShapes(a) == IF a = 1 THEN <<D("p2pkh", 1, <<1>>, "c"), D("p2wpkh", 1, <<2>>, "c"), D("p2pk", 1, <<3>>, "u")>>
+                  ELSE IF a = 2 THEN <<D("p2pkh", 1, <<3>>, "u"), D("p2pk", 1, <<1>>, "c"), D("p2pkh", 1, <<2>>, "c")>>
+                  ELSE <<D("ms_bare", 2, <<1, 2>>, "c"), D("p2pkh", 1, <<3>>, "c")>>
+FrontCases == {[coin |-> c, walk |-> 1, shape |-> FrontShapes(a), nout |-> n, ht |-> HTSeq[((a + n) % 6) + 1], mech |-> "wifs"] :
+                 c \in {"BTC", "BCH", "LTC"}, a \in 1..3, n \in 1..4}
 \* one trivial behaviour per coin (the harness reads PolicyFlags(coin) from it)
 FlagCases == {[coin |-> c, walk |-> 1, shape |-> <<D("p2pkh", 1, <<1>>, "c")>>, ht |-> 1, mech |-> "lookup"] : c \in AllCoins}
 LimCasesQ == LimCases({"BTC"}, {<<15, 15>>, <<20, 20>>, <<9, 12>>, <<7, 7>>, <<8, 15>>, <<2, 16>>}, 3)
